@@ -140,9 +140,10 @@ func runLong(c *vf.Ctx, path string, variants []variant, lv []*longVariant) {
 		}
 		lens := longLens(u.k, c.Thorough)
 		maxN := lens[len(lens)-1]
-		arena := make([]byte, len(prefix)+maxN+16+9)
-		ipbuf := make([]byte, maxN+16+9)
-		want := make([]byte, 0, maxN+16)
+		arena := pool.get(len(prefix) + maxN + 16 + 9)
+		ipbuf := pool.get(maxN + 16 + 9)
+		want := pool.get(maxN + 16)[:0]
+		defer func() { pool.put(arena); pool.put(ipbuf); pool.put(want) }()
 		keepA := append([]byte(nil), ad...)
 		keepN := append([]byte(nil), l.nonce...)
 		evals := 0
@@ -163,7 +164,7 @@ func runLong(c *vf.Ctx, path string, variants []variant, lv []*longVariant) {
 					for i := n; i < n+16; i++ {
 						ipbuf[i] = 0xEE
 					}
-					plainArg = ipbuf[:n : n+16]
+					plainArg = ipbuf[: n : n+16]
 					dst = plainArg[:0]
 				}
 				var got []byte
@@ -240,13 +241,16 @@ func firstDiff(a, b []byte) int {
 const (
 	hFailOpenSpare = iota // Open of the message with one tag bit flipped, into prefix + spare capacity
 	hFailOpenInPlace
-	hSealOther  // Seal of another message under another nonce and AD
-	hOpenOther  // successful Open of that other message
+	hSealOtherA // Seal of another message and AD under a nonce that differs in one middle byte only (byte 15; 12-byte nonce: byte 4)
+	hOpenOtherA // successful Open of that other message
+	hSealOtherB // the same with a nonce that differs in its last byte only
+	hOpenOtherB
 	hShortInput // Open of an input shorter than the tag
 	nHistOps
 )
 
-var histOpName = [...]string{"failed-Open(spare)", "failed-Open(in place)", "Seal(other)", "Open(other)", "Open(<16 bytes)"}
+var histOpName = [...]string{"failed-Open(spare)", "failed-Open(in place)", "Seal(other, nonce differs in a middle byte)", "Open(other, nonce differs in a middle byte)",
+	"Seal(other, nonce differs in the last byte)", "Open(other, nonce differs in the last byte)", "Open(<16 bytes)"}
 
 func histLens() []int {
 	set := map[int]bool{}
@@ -300,16 +304,15 @@ func runHistories(c *vf.Ctx, path string, variants []variant, keys [][]byte, non
 		ct := aeadref.Encrypt(key, nonce, plainAll)
 		tagger := aeadref.NewTagger(aeadref.PolyKey(key, nonce), ad, ct)
 		// the other message
-		// its nonce differs from the message's nonce only in the last byte of each 8-byte group, so
-		// that anything remembered under part of a nonce is found again under the wrong one
-		oNonce := append([]byte(nil), nonce...)
-		for _, i := range []int{7, 15, len(oNonce) - 1} {
-			if i < len(oNonce) {
-				oNonce[i] ^= 0x01
-			}
+		// its nonce differs from the message's nonce in one byte only, so that anything remembered
+		// under part of a nonce is found again under the wrong one
+		var oNonce [2][]byte
+		for j, i := range []int{map[int]int{12: 4, 24: 15}[va.nonce], va.nonce - 1} {
+			oNonce[j] = append([]byte(nil), nonce...)
+			oNonce[j][i] ^= 0x01
 		}
 		oPt, oAD := ptC[(ci+2)%nClasses][:77], adC[(ci+1)%nClasses][:5]
-		oSealed := aeadref.Seal(key, oNonce, oPt, oAD)
+		oSealed := [2][]byte{aeadref.Seal(key, oNonce[0], oPt, oAD), aeadref.Seal(key, oNonce[1], oPt, oAD)}
 		hname := "fresh"
 		for i, o := range hists[u.h] {
 			if i == 0 {
@@ -342,10 +345,12 @@ func runHistories(c *vf.Ctx, path string, variants []variant, keys [][]byte, non
 						} else {
 							aead.Open(bad[:0], nonce, bad, ad)
 						}
-					case hSealOther:
-						aead.Seal(nil, oNonce, oPt, oAD)
-					case hOpenOther:
-						aead.Open(nil, oNonce, append([]byte(nil), oSealed...), oAD)
+					case hSealOtherA, hSealOtherB:
+						j := (o - hSealOtherA) / 2
+						aead.Seal(nil, oNonce[j], oPt, oAD)
+					case hOpenOtherA, hOpenOtherB:
+						j := (o - hOpenOtherA) / 2
+						aead.Open(nil, oNonce[j], append([]byte(nil), oSealed[j]...), oAD)
 					case hShortInput:
 						aead.Open(nil, nonce, want[:min(7, len(want))], ad)
 					}
@@ -362,7 +367,7 @@ func runHistories(c *vf.Ctx, path string, variants []variant, keys [][]byte, non
 					dst = mkDst(arena, dm, n+16)
 				} else {
 					copy(ipbuf, plainAll[:n])
-					plainArg = ipbuf[:n : n+16]
+					plainArg = ipbuf[: n : n+16]
 					dst = plainArg[:0]
 				}
 				var got []byte
